@@ -4,7 +4,9 @@ import LunarVerif.Spec.C19
 
 Op lines (strings percent-encoded; `%n` = unset):
   cfg max=<n> cool=<s> block=<str|%n> allow=<str|%n> t0=<ticks>
-  dns <host> ip:<a.b.c.d> | real:<a.b.c.d> | gaierror | unicode      (only before the first call)
+  dns <host> ip:<a.b.c.d> | real:<a.b.c.d> | gaierror | oserror:<emfile|enomem> | herror | timeout | unicode
+                                                                     (only before the first call / decide)
+  decide host=<str> hdr=<...>                                        (TrafficFilter.is_allowed alone)
   adv d=<ticks>                                                      (1 tick = 1/8 s)
   call host=<str> hdr=<-|other|v:<str>|K:<str>> gw=<ok|connerr|connsub|errhdr|appexc> direct=<ok|exc>
   probe <str>
@@ -31,6 +33,9 @@ def parseIp (s : String) : Option IPv4 :=
 def parseRes (w : String) : Option Res :=
   if w == "gaierror" then some .gaierror
   else if w == "unicode" then some .unicodeErr
+  else if w == "oserror:emfile" || w == "oserror:enomem" then some .oserror
+  else if w == "herror" then some .herror
+  else if w == "timeout" then some .timeout
   else if w.startsWith "ip:" then (parseIp (w.drop 3).toString).map .ip
   else if w.startsWith "real:" then (parseIp (w.drop 5).toString).map .ip
   else none
@@ -119,6 +124,14 @@ def runStep (s : RunSt) (line : String) : RunSt × String :=
       ({ s with st := st', called := true },
        s!"sent={fmtSent o.sent} res={fmtResult o.result} cnt={st'.cnt} ok={b2s st'.ok}")
     | none => (s, "bad-op")
+  | "decide" :: ws =>
+    match kv ws "host", (kv ws "hdr").bind parseHdr with
+    | some h, some hd =>
+      if !s.hasCfg then (s, "bad-op") else
+      let host := (pctDec h).toList
+      let r := isAllowed s.cfg (mkFilter s.cfg) s.st.cache host hd
+      ({ s with st := (step s.cfg s.st (.decide host hd)).1, called := true }, s!"allowed={b2s r.1}")
+    | _, _ => (s, "bad-op")
   | ["probe", w] =>
     let h := (pctDec w).toList
     (s, s!"host={b2s (validateHost h)} ip={b2s (validateIp h)}")
@@ -128,6 +141,7 @@ structure JudgeSt where
   cfg : Cfg := ⟨0, 0, none, none, []⟩
   now : Nat := 0
   hist : List Obs := []     -- most recent first
+  decs : List DecObs := []  -- most recent first
   bad : Option String := none
 
 def judgeStep (s : JudgeSt) (op out : String) : JudgeSt :=
@@ -152,6 +166,15 @@ def judgeStep (s : JudgeSt) (op out : String) : JudgeSt :=
     | some c, some sent, some res => { s with hist := ⟨s.now, c, ⟨sent, res⟩⟩ :: s.hist }
     | some _, _, _ => { s with bad := some ("unexpected-answer:" ++ pctEnc out) }
     | none, _, _ => { s with bad := some "unparsable-call" }
+  | "decide" :: ws =>
+    match kv ws "host", (kv ws "hdr").bind parseHdr with
+    | some h, some hd =>
+      match kvNat (words out) "allowed" with
+      | some a => { s with decs := ⟨(pctDec h).toList, hd, a != 0⟩ :: s.decs }
+      | none =>
+        -- `raised:<type>`: the decision raised instead of answering
+        { s with bad := some ("decision-did-not-answer host=" ++ h ++ " answer=" ++ pctEnc out) }
+    | _, _ => { s with bad := some "unparsable-decide" }
   | _ => s
 
 def judgeFinish (s : JudgeSt) : String :=
@@ -159,6 +182,10 @@ def judgeFinish (s : JudgeSt) : String :=
   | some b => s!"fail - {b}"
   | none =>
     let h := s.hist.reverse
+    match s.decs.reverse.find? (fun d => !(decisionsOk s.cfg [d])) with
+    | some d =>
+      s!"fail - decision-differs-from-routing-rule host={encStr d.host} allowed={b2s d.answer} rule={b2s (shouldRoute s.cfg d.host d.hdr)}"
+    | none =>
     if holds s.cfg h then "ok"
     else
       match firstBad s.cfg Ref.init 0 h with
